@@ -20,3 +20,6 @@ ASSUMPTIONS = ["theorems are about the Lean model; they transfer to the code whe
 UNPROVED = []
 SUITES, _classifiers = SU.load_all()
 CHECKERS, ORACLES = _relational.make(R.check_invariance, self_inputs=False)
+_xc, _xo = _relational.extra(PID)
+CHECKERS.update(_xc)
+ORACLES.update(_xo)
